@@ -25,6 +25,12 @@ P = {
          'Every path from the no-match edge records the unknown option built from the verbatim token; Pass/Warn keep the token in the remaining list; Parse applies Fail/Warn before any success return; child nodes inherit unknownMode/requireOrder; records survive command descent. Message wording not decided.'),
  'C09': (True, 'other', 'guard facts at both stop sites, who-may-read (non-interference) of requireOrder, helper summary by typestate, post-bulk-copy reachability, inheritance in child literals',
          'Both stop sites are guarded by the cursor\'s requireOrder and placed after matcher/command scan; non-ordered handling is excluded under the flag; the helper copies current+rest verbatim and drains the iterator; nothing is interpreted afterwards; the flag is read nowhere else, so parsing before the stop point cannot depend on it.'),
+ 'C10': (True, 'other', 'who-may-call of CommandFn values, operand identity at the single call site, cursor-move analysis on go/ssa (key equality with the current plain token, target = matched entry, dominated by failed terminator and splitter tests), who-may-write of finalNode, pointer-sharing shape of the options copy, token typestate',
+         'Exactly one user function can be invoked per Dispatch, it is the final node\'s, with the caller\'s ctx, the given remaining list and a view of the final node; the final node is the result of the last cursor move, and the cursor moves only on a fresh plain token equal to a command name of the current level. User functions are out of scope.'),
+ 'C11': (True, 'other', 'must-pass-through and edge dominance in Dispatch and Parse (help test → required gate → call on the nil edge), gate summary (scans every record, wraps ErrorParsing with %w), exhaustive finite evaluation of CheckRequired over (IsRequired, Called), help-edge effect scan',
+         'For every tree and argv: no path reaches a CommandFn without passing the required gate of the selected node on its nil edge; help bypasses the gate and never reaches the user function; CheckRequired is non-nil exactly for required-and-not-called.'),
+ 'C12': (True, 'other', 'who-may-call of os.Getenv, CHA call-graph reachability from Parse/Dispatch (no modifier, no named environment read), definer order (default before modifiers), shape of the GetEnv modifier (guards, kinds, verbatim Save, SetCalled(name))',
+         'The environment can only be applied at definition time, after the default was stored and before any command-line Save; the modifier handles the seven scalar kinds, saves the text verbatim (bool: true/false only), ignores empty values and records the variable name as CalledAs.'),
 }
 NOT_YET = 'static check for this property is not built yet (work in progress; see DESIGN.md section 4 for the planned rules)'
 checks, na = [], []
